@@ -730,27 +730,57 @@ def _fails_same(evaluator, entries, sep, clause, kind):
     return any(f.clause == clause and f.kind == kind for f in evaluator(list(entries), sep))
 
 
+def _fails_clause(evaluator, entries, sep, clause):
+    """The kind with which `entries` fails `clause` (first one), or None."""
+    if not entries or not well_formed(entries):
+        return None
+    if oos_class(entries, render(entries, sep), sep):
+        return None
+    for f in evaluator(list(entries), sep):
+        if f.clause == clause:
+            return f.kind
+    return None
+
+
 def blame(evaluator, entries, sep, clause, kind):
-    """Shape of a locally minimal sub-sequence failing (clause, kind), plus a notation marker when
-    that sub-sequence fails in one notation only."""
+    """-> (kind, shape): shape of a locally minimal sub-sequence failing `clause`, plus a notation
+    marker when that sub-sequence fails in one notation only.
+    Phase 1 shrinks while the SAME kind of failure persists.  Phase 2 (only if more than one entry is
+    left) drops whole entries as long as the same clause still fails in ANY way and then re-runs
+    phase 1 with the kind found there: a failure that merely needs a partner to become visible in
+    another form (a regular expression that swallows the segments up to the next `/`) is then named
+    after the entry that fails on its own, which keeps the key set independent of the random seed."""
     cur = tuple(entries)
     ck = (evaluator.__name__, cur, sep, clause, kind)
     hit = _BLAME_CACHE.get(ck)
     if hit is not None:
         return hit
-    progress = True
-    while progress:
-        progress = False
-        for cand in _reductions(cur):
-            cand = tuple(cand)
-            if cand != cur and _fails_same(evaluator, cand, sep, clause, kind):
-                cur = cand
-                progress = True
+    while True:
+        progress = True
+        while progress:
+            progress = False
+            for cand in _reductions(cur):
+                cand = tuple(cand)
+                if cand != cur and _fails_same(evaluator, cand, sep, clause, kind):
+                    cur = cand
+                    progress = True
+                    break
+        if len(cur) < 2:
+            break
+        moved = False
+        for i in range(len(cur)):
+            cand = cur[:i] + cur[i + 1:]
+            k2 = _fails_clause(evaluator, cand, sep, clause)
+            if k2 is not None:
+                cur, kind, moved = cand, k2, True
                 break
+        if not moved:
+            break
     osep = "/" if sep == "." else "."
     res = shape_of(cur)
     if not _fails_same(evaluator, cur, osep, clause, kind):
         res += "/%s-only" % ("dot" if sep == "." else "slash")
+    res = (kind, res)
     if len(_BLAME_CACHE) < 300000:
         _BLAME_CACHE[ck] = res
     return res
@@ -927,8 +957,8 @@ def check_case(entries, sep, neighbours=(), coll=None):
             if f.kind in _NO_SHAPE:
                 fails.append(("C08/%s/%s" % (f.clause, f.kind), f))
                 continue
-            who = blame(ev, entries, sep, f.clause, f.kind)
-            fails.append(("C08/%s/%s/%s" % (f.clause, f.kind, who), f))
+            kind, who = blame(ev, entries, sep, f.clause, f.kind)
+            fails.append(("C08/%s/%s/%s" % (f.clause, kind, who), f))
     nbs = []
     if not any(k.startswith("C08/parse/") for k, _ in fails):
         for how, nb in neighbours:
